@@ -878,8 +878,6 @@ Definition combiner_block (w : world) (p : nat) : world * yld :=
       end
   | 5%nat =>
       let w := occupancy w n true in
-      (* print(... self.item_in_process.id ...): None when nothing was gathered in this round *)
-      if Nat.eqb (pix pr) 0 then (crashw w (CAttr 136), YDone) else
       let w := update_state w n 2 in
       let w := upd_proc w p (fun x => x <| pt0 := wnow w |>) in
       let '(w, t) := w_timeout w (pdl pr) in (setpc w p 6, YEvent t)
